@@ -2,6 +2,7 @@ package main
 
 import (
 	"fmt"
+	"time"
 	"io"
 	"os"
 	"path/filepath"
@@ -37,6 +38,84 @@ func copyFile(src, dst string, limit int64) error {
 }
 
 var imageSeq int
+
+// copyTree copies a directory of plain files and directories.
+func copyTree(src, dst string) {
+	filepath.Walk(src, func(path string, info os.FileInfo, err error) error {
+		if err != nil {
+			return nil
+		}
+		rel, _ := filepath.Rel(src, path)
+		if info.IsDir() {
+			os.MkdirAll(filepath.Join(dst, rel), 0755)
+			return nil
+		}
+		copyFile(path, filepath.Join(dst, rel), -1)
+		return nil
+	})
+}
+
+// recoverWithImages crashes, runs the real start-up recovery in a child process that leaves a crash
+// image before every page write and header write of the flush that ends recovery, reopens the
+// database, and then recovers and inspects each of those images: a second crash inside recovery.
+func (d *rdb) recoverWithImages() string {
+	d.crash()
+	before := diskNextFree("data/" + d.name + "/tbl")
+	imageSeq++
+	dir, _ := filepath.Abs(fmt.Sprintf("rimg%d", imageSeq))
+	os.MkdirAll(dir, 0755)
+	defer os.RemoveAll(dir)
+	d.cfg.tr.Op("recover")
+	res := ""
+	d.guard(func() string {
+		res = runChild(20*time.Second, "initstorage-images", dir)
+		if res == "ok" || res == "initerr" {
+			d.open()
+		}
+		return res
+	})
+	if res != "ok" {
+		return res
+	}
+	b, _ := os.ReadFile(dir + "/order.txt")
+	var order []string
+	alloc := 0
+	type img struct {
+		j   int
+		dir string
+	}
+	var images []img
+	for i, l := range strings.Split(strings.TrimSpace(string(b)), "\n") {
+		f := strings.Fields(l)
+		if len(f) == 0 {
+			continue
+		}
+		images = append(images, img{len(order), fmt.Sprintf("%s/%d", dir, i)})
+		if f[0] == "page" {
+			order = append(order, f[1])
+			var off uint64
+			fmt.Sscan(f[1], &off)
+			if off >= before {
+				alloc = 1
+			}
+		}
+	}
+	if len(order) == 0 {
+		return res
+	}
+	seen := map[int]bool{}
+	for _, im := range images {
+		if seen[im.j] {
+			continue
+		}
+		seen[im.j] = true
+		d.cfg.tr.Op("fimage %d recovery alloc=%d order=%s", im.j, alloc, strings.Join(order, ","))
+		d.guard(func() string { d.inspectImage(im.dir, nil); return "" })
+		d.cfg.st.Inc("flush-crash-images")
+		d.cfg.st.Inc(fmt.Sprintf("flush-crash-images.recovery.alloc%d", alloc))
+	}
+	return res
+}
 
 // captureImage copies the database files into a fresh directory; walLen >= 0 cuts the log copy there.
 func (d *rdb) captureImage(walLen int64) string {
